@@ -53,6 +53,15 @@ theorem C19_substr_bounds (start end_ : Int) (len : Nat) :
       (substrBounds start end_ len).2 ≤ (len : Int) :=
   substrBounds_valid start end_ len (by omega)
 
+/-- The unbounded-`Int` reading of the closure is exact for Go's 64-bit `int`: the only additions are `l + start` with
+`start < 0` and `l + end` with `end ≤ 0`, and `0 ≤ l`; for all arguments in the `int64` range every intermediate value
+stays in that range (no wrap-around), so `C19_substr_bounds` speaks about the machine arithmetic too. -/
+theorem C19_substr_no_overflow (start end_ l : Int)
+    (hs : -(2 ^ 63) ≤ start ∧ start < 2 ^ 63) (he : -(2 ^ 63) ≤ end_ ∧ end_ < 2 ^ 63) (hl : 0 ≤ l ∧ l < 2 ^ 63) :
+    (-(2 ^ 63) ≤ adjStart start l ∧ adjStart start l < 2 ^ 63) ∧ (-(2 ^ 63) ≤ adjEnd end_ l ∧ adjEnd end_ l < 2 ^ 63) := by
+  unfold adjStart adjEnd
+  constructor <;> split <;> omega
+
 /-- The fix is conservative: whenever the closure as found returned a value, the repaired one returns the same. -/
 theorem C19_substr_fix_conservative (α : Type) (start end_ : Int) (v r : List α)
     (h : substrUnclamped start end_ v = .ok r) : substr start end_ v = .ok r :=
@@ -345,6 +354,8 @@ theorem C19_as_found_counterexample :
 /-! ## non-vacuity -/
 
 example : substr 5 0 ['a', 'b', 'c'] = .ok [] := by decide
+-- C19_substr_no_overflow at the extreme arguments: substr(MinInt64, MaxInt64) on a 3-byte value is the whole value
+example : substr (-9223372036854775808) 9223372036854775807 "abc".toList = .ok "abc".toList := by decide
 example : substr (-2) 0 "abcdef".toList = .ok ['e', 'f'] := by decide
 example : substr 5 3 "abcdefgh".toList = .ok ['d', 'e'] := by decide
 example : substr (-100) 100 "abc".toList = .ok ['a', 'b', 'c'] := by decide
